@@ -131,7 +131,12 @@ def cancel_oracle(spec: dict, run, in_flight_ords: set | None = None) -> tuple[l
         terminal_any = any(v["status"] == "TERMINAL" for v in final.values())
         if canceled_any and wf != "CANCELED" and not (terminal_any and wf == "TERMINAL"):
             stopped_any = any(v["status"] == "STOPPED" for k, v in final.items() if k in top)
-            if wf == "SUCCEEDED" and stopped_any:
+            # the known mechanism decides BEFORE the cancel reached the stages: when the final status was written no
+            # top-level stage was CANCELED yet (a STOPPED one let CompleteWorkflow report success, the CancelStage
+            # messages came afterwards).  A SUCCEEDED written while a stage already was CANCELED is something else.
+            fin_rows = [a for a in run.audit if a["kind"] == "status" and a["op"] == "wf" and a["d"] in oracles.COMPLETE]
+            canceled_at_decision = bool(fin_rows) and any(tl.at(ids[r], fin_rows[-1]["seq"] - 1) == "CANCELED" for r in top if r in ids)
+            if wf == "SUCCEEDED" and stopped_any and not canceled_at_decision:
                 # known mechanism (DESIGN 10.3 row 13): a STOPPED top-level stage makes CompleteWorkflow report SUCCEEDED
                 out.append(viol("C17/final-status-not-canceled:stopped-stage-makes-workflow-succeed", f"workflow SUCCEEDED although stages were canceled: { {k: v['status'] for k, v in final.items()} }"))
             else:
